@@ -93,7 +93,7 @@ Proof. unfold cell_elems, canon_cell. cbn [c_polys c_paths c_refs c_labels]. rew
 
 Lemma lib_ok_canon l : lib_nodup l -> lib_ok l -> lib_ok (canon_lib l).
 Proof.
-  intros Hnd (A & B & C & D). unfold canon_lib. repeat split; try assumption. cbn [g_cells].
+  intros Hnd (A & B & C & D). unfold canon_lib. split; [exact A|]. split; [exact B|]. split; [exact C|]. cbn [g_cells].
   unfold lib_nodup in Hnd. induction D as [|c cells [Hn He] Hcs IH]; [constructor|].
   inversion Hnd as [|? ? Hc Hnds]; subst. cbn [map]. constructor; [|apply IH; exact Hnds].
   split; [exact Hn|]. rewrite cell_elems_canon. clear -He Hc.
